@@ -321,7 +321,7 @@ class TBR(object):
     # Data for the report.
     values = {
         'dates': dates,
-        'estimate': delta.mean(),
+        'estimate': delta.median(),
         'precision': np.abs(delta.ppf(alpha) - delta.ppf(0.5)).reshape(ndates),
         'lower': delta.ppf(alpha).reshape(ndates),
         'upper': delta.ppf(pupper).reshape(ndates),
